@@ -722,4 +722,58 @@ theorem isCharBoundary_length (v : List Nat) : isCharBoundary v v.length = true 
   unfold isCharBoundary; split <;> simp
 
 
+
+theorem subStart_eq_clamp (n : Nat) (start : Int) : subStart n start = clampStart n start := by
+  unfold subStart clampStart
+  split <;> split <;> (try split) <;> omega
+
+theorem subEnd_le (n st : Nat) (len : Option Nat) : subEnd n st len ≤ n := by
+  unfold subEnd; cases len <;> simp only [] <;> omega
+
+theorem byteSubstring_valid (s : List Char) (start : Int) (len : Option Nat) (r : List Nat)
+    (h : byteSubstring true (encode s) start len = .ok r) :
+    ∃ m, r = encode m ∧ m <:+: s := by
+  unfold byteSubstring at h
+  simp only [Bool.not_true, Bool.or_false] at h
+  split at h
+  · rename_i hok
+    simp only [SubRes.ok.injEq] at h
+    subst h
+    simp only [Bool.and_eq_true, Bool.or_eq_true, decide_eq_true_eq] at hok
+    obtain ⟨hs, he⟩ := hok
+    apply slice_valid _ _ _ (subEnd_le _ _ _)
+    · rcases hs with hs | hs
+      · subst hs; simp [subStart, isCharBoundary_zero]
+      · exact hs
+    · cases len with
+      | none => simp [subEnd, isCharBoundary_length]
+      | some l => simpa using he
+  · simp at h
+
+/-- the clamped byte range of the specification -/
+theorem byteSubstring_eq_spec (check : Bool) (v : List Nat) (start : Int) (len : Option Nat)
+    (r : List Nat) (h : byteSubstring check v start len = .ok r) :
+    r = substrSpec v start len := by
+  unfold byteSubstring at h
+  simp only [] at h
+  split at h
+  · simp only [SubRes.ok.injEq] at h
+    subst h
+    unfold substrSpec
+    rw [subStart_eq_clamp]
+    cases len with
+    | none =>
+      simp only [subEnd]
+      rw [List.take_of_length_le (by simp)]
+    | some l =>
+      simp only [subEnd]
+      rw [List.drop_take]
+      by_cases hc : clampStart v.length start ≤ v.length
+      · by_cases hl : l + clampStart v.length start ≤ v.length
+        · congr 1; omega
+        · rw [List.take_of_length_le (by simp; omega), List.take_of_length_le (by simp; omega)]
+      · exfalso; apply hc; unfold clampStart; split <;> omega
+  · simp at h
+
+
 end ArrowModel.C20
